@@ -295,8 +295,18 @@ Section Loop.
   Variable Q : Type.
   Variable solve_assert solve_low : Q -> Z.
 
+  (* the early exit (executor shutdown after a valid counterexample) did not interrupt a stuck-path solve *)
+  Hypothesis no_shutdown_answer : forall q, solve_low q <> S_SHUTDOWN.
+
   Let step := step_leaf Q solve_assert solve_low.
   Let lp := loop Q solve_assert solve_low.
+
+  Lemma shutdown_at_false : forall codes l, shutdown_at Q solve_low codes l = false.
+  Proof.
+    intros codes l. unfold shutdown_at.
+    assert (E : (solve_low (l_query l) =? S_SHUTDOWN) = false) by (apply Z.eqb_neq, no_shutdown_answer).
+    rewrite E. destruct (is_panic_of (l_err Q l) (l_data l) codes); try reflexivity; apply andb_false_r.
+  Qed.
 
   Definition panic_found (codes : list Z) (l : leaf Q) : bool :=
     match is_panic_of (l_err Q l) (l_data l) codes with TTrue => true | _ => false end.
@@ -332,7 +342,7 @@ Section Loop.
   Proof.
     intros codes width ls. induction ls as [|l ls IH]; intros pid a0 Hr Hw.
     - cbn in *. split; [auto|split; [auto|split; [apply incl_refl|intros l0 []]]].
-    - unfold lp in *. cbn [loop] in *.
+    - unfold lp in *. cbn [loop] in *. rewrite shutdown_at_false in *.
       destruct (step_leaf Q solve_assert solve_low codes l a0) as [a'|] eqn:S.
       + destruct (width_cut width pid) eqn:W.
         * cbn [a_width_warn] in Hw. discriminate.
@@ -376,6 +386,7 @@ Section Loop.
   Lemma loop_stuck_mono : forall codes width ls pid a0, a_stuck a0 <= a_stuck (lp codes width pid ls a0).
   Proof.
     intros codes width ls. induction ls as [|l ls IH]; intros pid a0; unfold lp in *; cbn [loop]; [lia|].
+    destruct (shutdown_at Q solve_low codes l); [lia|].
     destruct (step_leaf Q solve_assert solve_low codes l a0) as [a'|] eqn:S; [|cbn [a_stuck]; lia].
     destruct (step_leaf_stuck _ _ _ _ S) as [M _].
     destruct (width_cut width pid); [cbn [a_stuck]; lia|].
@@ -389,7 +400,7 @@ Section Loop.
       a_stuck a0 < a_stuck (lp codes width pid ls a0).
   Proof.
     intros codes width ls. induction ls as [|l ls IH]; intros pid a0 Hr Hw l0 Hin Hc Hs; [destruct Hin|].
-    unfold lp in *. cbn [loop] in *.
+    unfold lp in *. cbn [loop] in *. rewrite shutdown_at_false in *.
     destruct (step_leaf Q solve_assert solve_low codes l a0) as [a'|] eqn:S; [|cbn [a_raised] in Hr; discriminate].
     destruct (width_cut width pid) eqn:W; [cbn [a_width_warn] in Hw; discriminate|].
     destruct (step_leaf_stuck _ _ _ _ S) as [M1 M2].
@@ -399,16 +410,22 @@ Section Loop.
   Qed.
 End Loop.
 
+(* a failed solver call while confirming a stuck path does not escape run_test: it is the `err` answer, which the
+   filter counts (regenerated: the handler `except Exception` ends in SolverOutput.from_error) *)
+Lemma stuck_solve_failure_counted : stuck_failure_counts = true /\ stuck_counts S_ERR = true.
+Proof. split; reflexivity. Qed.
+
 (* a PASS without --width warning: every reported path that is stuck (output data None, or an internal
    HalmosException -- wherever in the call tree it was raised) was either an assertion-failure candidate or
    refuted by the solver *)
 Theorem pass_no_stuck : forall Q sa sl codes width (e : exploration Q),
+  (forall q, sl q <> S_SHUTDOWN) ->
   r_exit (run_test Q sa sl codes width e) = EX_PASS ->
   r_warn_width (run_test Q sa sl codes width e) = false ->
   forall l, In l (ex_leaves e) -> is_stuck Q l = true ->
     panic_found Q codes l = true \/ global_fail (l_ctx l) = true \/ sl (l_query l) = S_UNSAT.
 Proof.
-  intros Q sa sl codes width e Hexit Hw l Hin Hst.
+  intros Q sa sl codes width e Hns Hexit Hw l Hin Hst.
   unfold run_test in *. cbn [r_exit r_warn_width] in *.
   set (a := loop Q sa sl codes width 0 (ex_leaves e) acc0) in *.
   destruct (a_raised a) eqn:Hr; [unfold EX_EXCEPTION, EX_PASS in Hexit; discriminate|].
@@ -421,7 +438,7 @@ Proof.
   { unfold cls_of. rewrite P, F, Hst. unfold classify, CL_STUCK. destruct (has_error Q l); reflexivity. }
   assert (S : stuck_counts (sl (l_query l)) = true).
   { unfold stuck_counts. apply negb_true_iff, Z.eqb_neq. exact U. }
-  pose proof (loop_stuck_counted Q sa sl codes width (ex_leaves e) 0 acc0 Hr Hw l Hin C S) as L.
+  pose proof (loop_stuck_counted Q sa sl Hns codes width (ex_leaves e) 0 acc0 Hr Hw l Hin C S) as L.
   fold a in L. cbn [a_stuck acc0] in L. lia.
 Qed.
 
@@ -487,6 +504,7 @@ Section PassSound.
   Hypothesis panic_data_concrete :
     forall l d, In l (ex_leaves e) -> l_err Q l = ERevert -> l_data l = Some d -> length d = 36%nat ->
       exists bs, d = map BC bs /\ Forall is_byte bs.
+  Hypothesis no_early_exit : forall q, solve_low q <> S_SHUTDOWN.
 
   Lemma map_inst_BC : forall i bs, map (inst_byte i) (map BC bs) = bs.
   Proof. intros i bs. rewrite map_map. cbn [inst_byte]. apply map_id. Qed.
@@ -507,7 +525,7 @@ Section PassSound.
     unfold run_test in Hexit. cbn [r_exit] in Hexit.
     set (a := loop Q solve_assert solve_low codes width 0 (ex_leaves e) acc0) in *.
     destruct (a_raised a) eqn:Hr; [unfold EX_EXCEPTION, EX_PASS in Hexit; discriminate|].
-    destruct (loop_props Q solve_assert solve_low codes width (ex_leaves e) 0 acc0 Hr Hw) as [_ [_ [_ Hall]]].
+    destruct (loop_props Q solve_assert solve_low no_early_exit codes width (ex_leaves e) 0 acc0 Hr Hw) as [_ [_ [_ Hall]]].
     destruct (Hall l Hin) as [Hnoraise Hpot]. fold a in Hpot.
     apply verdict_pass in Hexit. destruct Hexit as [Hsat [Herr [Hunk _]]].
     apply count_zero_not_in in Hsat, Herr, Hunk.
@@ -566,11 +584,12 @@ Section PassSoundE2E.
     (forall q, In (fst (low q)) [S_UNSAT; S_SAT; S_UNKNOWN; S_ERR]) ->
     (forall l d, In l (ex_leaves e) -> l_err Q l = ERevert -> l_data l = Some d -> length d = 36%nat ->
        exists bs, d = map BC bs /\ Forall is_byte bs) ->
+    (forall q, solve_low q <> S_SHUTDOWN) ->
     r_exit (run_test Q solve_assert solve_low codes width e) = EX_PASS ->
     clean (run_test Q solve_assert solve_low codes width e) = true ->
     forall i, admissible i -> ~ violates codes (concrete i).
   Proof.
-    intros Hex Hq Hcore Hlow Href Hrange Hconc.
+    intros Hex Hq Hcore Hlow Href Hrange Hconc Hns.
     apply (pass_sound Q solve_assert solve_low input admissible concrete qsat holds eval codes width e); auto.
     - intros q. apply (solve_end_to_end_unsat_sound Q Qeqb core_hit low refine input qsat); auto.
     - intros q. unfold solve_assert, solve_end_to_end.
@@ -629,48 +648,49 @@ Section Setup.
   Variable Q : Type.
   Variable solve_low : Q -> Z.
 
-  Lemma setup_path_ok_spec : forall e st, setup_path_ok e st = true <-> e = false.
-  Proof. intros e st. unfold setup_path_ok. destruct e; cbn; split; intros H; congruence. Qed.
+  (* a path of setUp counts as successful iff it has no error AND is not stuck *)
+  Lemma setup_path_ok_spec : forall e st, setup_path_ok e st = true <-> (e = false /\ st = false).
+  Proof. intros e st. unfold setup_path_ok. destruct e, st; cbn; split; intros H; try discriminate; try tauto; destruct H; discriminate. Qed.
 
   Lemma setup_keeps_spec : forall r, setup_keeps r = true <-> r <> S_UNSAT.
   Proof. intros r. unfold setup_keeps, S_UNSAT. rewrite negb_true_iff, Z.eqb_neq. tauto. Qed.
 
+  (* a path that is dropped although it has no error of its own (stuck inside a sub-call) is reported *)
+  Lemma setup_dropped_stuck_reported : forall e st,
+    setup_path_ok e st = false -> e = false -> setup_reports e st = true.
+  Proof. intros e st H ->. unfold setup_path_ok, setup_reports in *. destruct st; cbn in *; [reflexivity | discriminate]. Qed.
+
   Theorem setup_select_unique : forall paths p,
     setup_select Q solve_low paths = SetupOk p ->
-    In p paths /\ sp_error p = false /\
-    forall p', In p' paths -> sp_error p' = false -> p' = p \/ solve_low (sp_query p') = S_UNSAT.
+    In p paths /\ sp_error p = false /\ sp_stuck p = false /\
+    forall p', In p' paths -> sp_error p' = false -> sp_stuck p' = false -> p' = p \/ solve_low (sp_query p') = S_UNSAT.
   Proof.
     intros paths p H. unfold setup_select in H.
     set (ok := filter (fun p => setup_path_ok (sp_error p) (sp_stuck p)) paths) in *.
-    assert (Hok : forall x, In x ok <-> In x paths /\ sp_error x = false).
+    assert (Hok : forall x, In x ok <-> In x paths /\ sp_error x = false /\ sp_stuck x = false).
     { intros x. unfold ok. rewrite filter_In. rewrite setup_path_ok_spec. tauto. }
     destruct ok as [|p1 [|p2 rest]] eqn:E.
     - discriminate.
-    - inversion H; subst p1. destruct (proj1 (Hok p) (or_introl eq_refl)) as [A B].
-      repeat split; auto. intros p' Hin He. left.
-      destruct (proj2 (Hok p') (conj Hin He)) as [<-|[]]. reflexivity.
+    - inversion H; subst p1. destruct (proj1 (Hok p) (or_introl eq_refl)) as [A [B C]].
+      repeat split; auto. intros p' Hin He Hs. left.
+      destruct (proj2 (Hok p') (conj Hin (conj He Hs))) as [<-|[]]. reflexivity.
     - set (f := filter (fun p => setup_keeps (solve_low (sp_query p))) (p1 :: p2 :: rest)) in *.
       assert (Hf : forall x, In x f <-> In x (p1 :: p2 :: rest) /\ solve_low (sp_query x) <> S_UNSAT).
       { intros x. unfold f. rewrite filter_In, setup_keeps_spec. tauto. }
       destruct f as [|q1 [|q2 rest']] eqn:F; try discriminate.
       inversion H; subst q1.
       destruct (proj1 (Hf p) (or_introl eq_refl)) as [A B].
-      destruct (proj1 (Hok p) A) as [A1 A2].
-      repeat split; auto. intros p' Hin He.
+      destruct (proj1 (Hok p) A) as [A1 [A2 A3]].
+      repeat split; auto. intros p' Hin He Hs.
       destruct (Z.eq_dec (solve_low (sp_query p')) S_UNSAT) as [U|U]; [right; exact U|left].
-      destruct (proj2 (Hf p') (conj (proj2 (Hok p') (conj Hin He)) U)) as [<-|[]]. reflexivity.
+      destruct (proj2 (Hf p') (conj (proj2 (Hok p') (conj Hin (conj He Hs))) U)) as [<-|[]]. reflexivity.
   Qed.
 
+  (* the state handed to the tests is never a path that halmos could not continue *)
+  Corollary setup_selected_not_stuck : forall paths p,
+    setup_select Q solve_low paths = SetupOk p -> sp_error p = false /\ sp_stuck p = false.
+  Proof. intros paths p H. destruct (setup_select_unique paths p H) as [_ [A [B _]]]. split; assumption. Qed.
 End Setup.
-
-(* GENUINE DEFECT: the success test of setup() looks at `output.error` only.  A path of setUp stopped by an
-   internal error inside a SUB-CALL has no error at the top level (its output data is None: is_stuck), so it
-   counts as a successful path -- and when it is the only one it becomes the state every test starts from.
-   `setup_select ... = SetupOk p -> sp_stuck p = false` is false of the faithful model: *)
-Theorem setup_select_stuck_path_refuted :
-  exists (paths : list (spath unit)) p,
-    setup_select unit (fun _ => S_SAT) paths = SetupOk p /\ sp_stuck p = true.
-Proof. exists [mkSpath false true tt], (mkSpath false true tt). split; reflexivity. Qed.
 
 (* ------------------------------------------------------------------ which loop-bound logs are reported (C10) *)
 
@@ -724,13 +744,14 @@ Qed.
 
 (* when no exception escapes and --width does not warn, every leaf was classified *)
 Lemma run_test_no_width_warn_all_processed : forall Q sa sl codes width (e : exploration Q),
+  (forall q, sl q <> S_SHUTDOWN) ->
   r_warn_width (run_test Q sa sl codes width e) = false ->
   r_exit (run_test Q sa sl codes width e) <> EX_EXCEPTION ->
   forall l, In l (ex_leaves e) -> is_panic_of (l_err Q l) (l_data l) codes <> TRaise.
 Proof.
-  intros Q sa sl codes width e Hw Hx l Hin. unfold run_test in *. cbn [r_warn_width r_exit] in *.
+  intros Q sa sl codes width e Hns Hw Hx l Hin. unfold run_test in *. cbn [r_warn_width r_exit] in *.
   destruct (a_raised (loop Q sa sl codes width 0 (ex_leaves e) acc0)) eqn:R; [congruence|].
-  destruct (loop_props Q sa sl codes width (ex_leaves e) 0 acc0 R Hw) as [_ [_ [_ H]]].
+  destruct (loop_props Q sa sl Hns codes width (ex_leaves e) 0 acc0 R Hw) as [_ [_ [_ H]]].
   apply (H l Hin).
 Qed.
 
